@@ -123,7 +123,24 @@ type Ev struct {
 	F    bool   `json:"f,omitempty"`    // the event failed (injected)
 }
 
+// ctxErr is an injected error that also is a context error.
+type ctxErr struct{ base, ctx error }
+
+func (e *ctxErr) Error() string        { return e.base.Error() + ": " + e.ctx.Error() }
+func (e *ctxErr) Is(t error) bool       { return t == e.base || t == e.ctx }
+
+func injected(base error, kind string) error {
+	switch kind {
+	case "canceled":
+		return &ctxErr{base, context.Canceled}
+	case "deadline":
+		return &ctxErr{base, context.DeadlineExceeded}
+	}
+	return base
+}
+
 type runState struct {
+	errKind        string
 	dfault, hfault int
 	nops, nhooks   int
 	evs            []Ev
@@ -140,7 +157,7 @@ func hookPoint(name string) error {
 	cur.nhooks++
 	if i == cur.hfault {
 		cur.evs = append(cur.evs, Ev{K: "hook", Kind: name, F: true})
-		return errHook
+		return injected(errHook, cur.errKind)
 	}
 	cur.evs = append(cur.evs, Ev{K: "hook", Kind: name})
 	return nil
@@ -221,6 +238,10 @@ type Input struct {
 	Op     Op         `json:"op"`
 	DFault int        `json:"dfault"` // index of the failing driver operation (-1 none)
 	HFault int        `json:"hfault"` // index of the failing hook invocation (-1 none)
+	// what the injected error IS besides the harness' sentinel: "" nothing | "canceled": it also is
+	// (errors.Is) context.Canceled | "deadline": context.DeadlineExceeded - a failure that came from
+	// some other, shorter-lived context while the operation's own context is alive
+	ErrKind string `json:"err_kind,omitempty"`
 }
 
 func buildUser(s UserSpec) User {
@@ -571,7 +592,7 @@ func runOnce(in Input, refDumps []string) (Observed, []string) {
 			CreateClauses: []string{"INSERT", "VALUES", "ON CONFLICT"}, LastInsertIDReversed: false})))
 	}
 	history(db, in.Pre)
-	st := &runState{dfault: in.DFault, hfault: in.HFault, fresh: e.fresh, wantDumps: refDumps == nil}
+	st := &runState{errKind: in.ErrKind, dfault: in.DFault, hfault: in.HFault, fresh: e.fresh, wantDumps: refDumps == nil}
 	st.dumps = []string{dumpAll(e.fresh)}
 	e.rec.Reset()
 	e.rec.Fault = func(_ int, ev *recdrv.Event) error {
@@ -584,7 +605,7 @@ func runOnce(in Input, refDumps []string) (Observed, []string) {
 		st.nops++
 		if i == st.dfault {
 			st.evs = append(st.evs, Ev{K: "op", Kind: k, F: true})
-			return errFault
+			return injected(errFault, st.errKind)
 		}
 		st.evs = append(st.evs, Ev{K: "op", Kind: k})
 		return nil
@@ -986,7 +1007,7 @@ func shape(in Input, free Observed) string {
 			sb.WriteByte('h')
 		}
 	}
-	fmt.Fprintf(&sb, "| d%d h%d", in.DFault, in.HFault)
+	fmt.Fprintf(&sb, "| d%d h%d %s", in.DFault, in.HFault, in.ErrKind)
 	return sb.String()
 }
 
@@ -1064,6 +1085,7 @@ func main() {
 				Sig: sig(in), Kind: kind, Shape: shape(in, free), Nontriv: nops >= 4 && nhooks >= 2})
 			out.Count("operation", in.Op.Kind)
 			out.Count("fault", fk)
+			out.Count("error_is", "sentinel+"+in.ErrKind)
 			out.Count("error", o.ErrK)
 			out.Count("driver_ops", fmt.Sprint(nops))
 			out.Count("hook_invocations", fmt.Sprint(nhooks))
@@ -1080,20 +1102,38 @@ func main() {
 			return
 		}
 		one(in)
+		// every index with the plain sentinel; every third index also with an error that is
+		// context.Canceled / context.DeadlineExceeded (the operation's own context stays alive)
+		kinds := func(i int) []string {
+			switch i % 3 {
+			case 1:
+				return []string{"", "canceled"}
+			case 2:
+				return []string{"", "deadline"}
+			}
+			return []string{""}
+		}
 		for k := 0; k < nops; k++ {
 			in.DFault, in.HFault = k, -1
 			if sig(in) != "" && kind != "corpus" {
 				continue
 			}
-			one(in)
+			for _, ek := range kinds(k) {
+				in.ErrKind = ek
+				one(in)
+			}
 		}
 		for h := 0; h < nhooks; h++ {
 			in.DFault, in.HFault = -1, h
 			if sig(in) != "" && kind != "corpus" {
 				continue
 			}
-			one(in)
+			for _, ek := range kinds(h + 1) {
+				in.ErrKind = ek
+				one(in)
+			}
 		}
+		in.ErrKind = ""
 	}
 
 	readCase := func(f string) Input {
